@@ -321,7 +321,7 @@ fn gen_map(r: &mut Rng, sorted_sources: bool) -> sourcemap::SourceMap {
     let raw: Vec<sourcemap::RawToken> = toks.iter().map(|t| sourcemap::RawToken { dst_line: t.dl, dst_col: t.dc, src_line: t.sl, src_col: t.sc, src_id: t.src, name_id: t.name, is_range: t.range }).collect();
     // the contents list handed over may be shorter than the sources (a builder whose contents were set before more sources were added)
     let contents = if r.below(6) == 0 && nsrc >= 2 { contents[..1 + r.below(nsrc as u64 - 1) as usize].to_vec() } else { contents };
-    let mut sm = sourcemap::SourceMap::new(match r.below(5) { 0 | 1 => Some("out.js".into()), 2 => Some("\u{1f600}>.js".into()), _ => None }, raw, names.iter().map(|s| (*s).into()).collect(), srcs.iter().map(|s| (*s).into()).collect(), if r.below(3) == 0 { None } else { Some(contents) });
+    let mut sm = sourcemap::SourceMap::new(match r.below(6) { 0 | 1 => Some("out.js".into()), 2 => Some("\u{1f600}>.js".into()), 3 => Some(["<invalid>", "", "null"][r.below(3) as usize].into()), _ => None }, raw, names.iter().map(|s| (*s).into()).collect(), srcs.iter().map(|s| (*s).into()).collect(), if r.below(3) == 0 { None } else { Some(contents) });
     if r.below(3) == 0 { sm.set_source_root(Some(["", "root", "root/", "webpack:///", "r\u{e9}\u{1f600}/", "/abs"][r.below(6) as usize])); }
     for i in 0..nsrc as u32 { if r.below(5) == 0 { sm.add_to_ignore_list(i); } }
     sm
@@ -386,7 +386,8 @@ fn run_ram(r: &mut Rng, n: u64) {
         for (k, m) in mods.iter().enumerate() { match m { None => { v.extend(le(0)); v.extend(le(0)); } Some(d) => { v.extend(le(offs[k])); v.extend(le(d.len() as u32 + 1)); } } }
         v.extend(&startup); v.extend(&data);
         let corrupt = r.below(6);
-        match corrupt { 0 => { let k = r.below(v.len() as u64 + 1) as usize; v.truncate(k); } 1 => { let k = r.below(v.len() as u64) as usize; v[k] = [0, 1, 0xff, 0x7f][r.below(4) as usize]; }
+        match corrupt { 0 => { let k = r.below(v.len() as u64 + 1) as usize; v.truncate(k); } 1 => { if r.below(3) == 0 && v.len() >= 4 { let m: [u8; 4] = [[0xfb, 0x0b, 0xd1, 0xe5], [0xe5, 0xd1, 0x0b, 0xfa], [0xe4, 0xd1, 0x0b, 0xfb], [0xd1, 0xe5, 0xfb, 0x0b]][r.below(4) as usize]; v[0..4].copy_from_slice(&m); }   // the magic in the other byte order, one bit off, half-swapped: none of these is the magic
+                   else { let k = r.below(v.len() as u64) as usize; v[k] = [0, 1, 0xff, 0x7f][r.below(4) as usize]; } }
             2 => { if v.len() >= 8 { v[4..8].copy_from_slice(&le([0xffffffff, 5, 0x80000000][r.below(3) as usize])); } }
             3 => { if count > 0 { let k = 12 + 8 * r.below(count as u64) as usize + 4 * r.below(2) as usize; let vl = v.len() as u32; v[k..k + 4].copy_from_slice(&le([0xffffffff, 0xfffffff0, vl, 0x7fffffff][r.below(4) as usize])); } }
             _ => {} }
@@ -541,7 +542,7 @@ fn run_fname_gen(r: &mut Rng, n: u64, any_col: bool) {
         } }
     }
     let words = ["function", "a", "ab", "\u{e9}", "a\u{e9}", "\u{1D49C}x", "$", "_1", "x\u{200d}y", "(", ")", "{", "}", "\u{1F44C}", "1", " ", "\t", "\u{a0}", ";", "function", "function", "function", "var", ",",
-        "a\u{301}", "ab\u{661}", "a\u{203f}b", "a\u{b7}b", "\u{301}", "\u{b7}", "\u{feff}", "\u{feff}"];   // U+FEFF is a character like any other, also in front of everything
+        "a\u{301}", "ab\u{661}", "a\u{203f}b", "a\u{b7}b", "\u{301}", "\u{b7}", "\u{feff}", "\u{feff}", "\u{2028}", "\u{2029}"];   // U+FEFF is a character like any other, also in front of everything
     let cands = ["a", "ab", "\u{e9}", "a\u{e9}", "function", "\u{1D49C}x", "x\u{200d}y", "1a", "a b", "", "_1", "$", "a\u{301}", "ab\u{661}", "a\u{203f}b", "a\u{b7}b", "\u{301}a"];
     for i in 0..n {
         let long = i % 10 == 0;
@@ -762,12 +763,12 @@ fn run_decode(r: &mut Rng, n: u64, with_faults: bool) {
 fn run_dispatch(r: &mut Rng, n: u64) {
     let inner = r#"{"version":3,"sources":["a"],"names":[],"mappings":"AAAA"}"#;
     for i in 0..n {
-        let sections = ["-", "null", "[]", "[S]", "[S,S2]", "[N]"][r.below(6) as usize];
+        let sections = ["-", "null", "[]", "[S]", "[S,S2]", "[N]", "[U]", "[S,U]"][r.below(8) as usize];     // U: a section that only refers to a map by url
         let fb = ["-", "-", "null", "[]", "[null]", "[[{\"names\":[\"f\"],\"mappings\":\"AAA\"}]]"][r.below(6) as usize];
         let with_mappings = r.below(4) != 0;
         let mut parts = vec!["\"version\":3".to_string()];
         if with_mappings { parts.push("\"sources\":[\"a\"]".into()); parts.push("\"names\":[]".into()); parts.push("\"mappings\":\"AAAA\"".into()); }
-        if sections != "-" { parts.push(format!("\"sections\":{}", sections.replace("S2", &format!("{{\"offset\":{{\"line\":5,\"column\":0}},\"map\":{}}}", inner)).replace("S", &format!("{{\"offset\":{{\"line\":0,\"column\":0}},\"map\":{}}}", inner)).replace("N", "{\"offset\":{\"line\":0,\"column\":0},\"map\":{\"version\":3,\"sections\":[]}}"))); }
+        if sections != "-" { parts.push(format!("\"sections\":{}", sections.replace("S2", &format!("{{\"offset\":{{\"line\":5,\"column\":0}},\"map\":{}}}", inner)).replace("S", &format!("{{\"offset\":{{\"line\":0,\"column\":0}},\"map\":{}}}", inner)).replace("N", "{\"offset\":{\"line\":0,\"column\":0},\"map\":{\"version\":3,\"sections\":[]}}").replace("U", "{\"offset\":{\"line\":9,\"column\":0},\"url\":\"u.map\"}"))); }
         if fb != "-" { parts.push(format!("\"x_facebook_sources\":{}", fb)); }
         // key order is irrelevant
         for k in (1..parts.len()).rev() { let j = r.below(k as u64 + 1) as usize; parts.swap(k, j); }
@@ -851,7 +852,8 @@ fn run_hermes(r: &mut Rng, n: u64) {
                 let per_off: Vec<String> = offsets.iter().map(|&o| match catch_unwind(AssertUnwindSafe(|| h.get_original_function_name(o).map(|s| s.to_string()))) { Ok(x) => opt_hex(x.as_deref()), Err(_) => "panic".into() }).collect();
                 // C09: after rewriting, every token still resolves to the same enclosing function
                 let scopes_of = |hh: &sourcemap::SourceMapHermes| -> Vec<String> { (0..hh.get_token_count()).map(|k| match catch_unwind(AssertUnwindSafe(|| hh.get_scope_for_token(hh.get_token(k as usize).unwrap()).map(|s| s.to_string()))) { Ok(x) => opt_hex(x.as_deref()), Err(_) => "panic".into() }).collect() };
-                let rewritten = catch_unwind(AssertUnwindSafe(|| h.clone().rewrite(&sourcemap::RewriteOptions::default())));
+                let ropts = if i % 2 == 0 { sourcemap::RewriteOptions::default() } else { sourcemap::RewriteOptions { with_names: false, with_source_contents: i % 4 == 1, ..Default::default() } };   // names of tokens are one thing, function maps another
+                let rewritten = catch_unwind(AssertUnwindSafe(|| h.clone().rewrite(&ropts)));
                 let after: Vec<String> = match &rewritten { Ok(Ok(h2)) => scopes_of(h2), Ok(Err(_)) => vec!["err".into()], Err(_) => vec!["panic".into()] };
                 // ... and the rewritten map written and read again answers like the rewritten map (the raw payload travels with the renumbered sources)
                 let reser2: Vec<String> = match &rewritten { Ok(Ok(h2)) if h2.tokens().all(|t| t.get_dst_line() < 100_000) => match catch_unwind(AssertUnwindSafe(|| { let mut o = vec![]; h2.to_writer(&mut o).unwrap(); sourcemap::decode_slice(&o) })) {
@@ -1021,7 +1023,7 @@ fn view_of(t: &sourcemap::Token) -> String {
 fn sm_full_obs(sm: &sourcemap::SourceMap) -> String {
     let mut views: Vec<String> = vec![]; for t in sm.tokens() { let v = view_of(&t); if views.last() != Some(&v) { views.push(v); } }
     let nsrc = sm.get_source_count();
-    format!("R[file={} root={} sources={} names={} contents={} ignore={} dbg={} tokens={}]", opt_hex(sm.get_file()), opt_hex(sm.get_source_root().filter(|r| !r.is_empty())),
+    format!("R[file={} root={} sources={} names={} contents={} ignore={} dbg={} tokens={}]", opt_hex(sm.get_file()), opt_hex(sm.get_source_root()),
         (0..nsrc).map(|i| opt_hex(sm.get_source(i))).collect::<Vec<_>>().join(","), sm.names().map(|n| format!("={}", hex(n.as_bytes()))).collect::<Vec<_>>().join(","),
         (0..nsrc).map(|i| opt_hex(sm.get_source_contents(i))).collect::<Vec<_>>().join(","), sm.ignore_list().map(|x| x.to_string()).collect::<Vec<_>>().join(","),
         sm.get_debug_id().map(|d| d.to_string()).unwrap_or("-".into()), views.join(";"))
@@ -1074,14 +1076,14 @@ fn gen_hermes_doc(r: &mut Rng) -> Vec<u8> {
     let mut fb = vec![];
     for _ in 0..nsrc {
         if r.below(5) == 0 { fb.push(serde_json::Value::Null); continue; }
-        let nn = 1 + r.below(3) as usize; let names: Vec<String> = (0..nn).map(|x| format!("f{}_{}", fb.len(), x)).collect();
+        let nn = if r.below(8) == 0 { 0 } else { 1 + r.below(3) as usize }; let names: Vec<String> = (0..nn).map(|x| format!("f{}_{}", fb.len(), x)).collect();
         // sometimes the very same scope string as the previous source, under this source's own names
         if let Some(prev) = fb.last().and_then(|p: &serde_json::Value| p.get(0)).and_then(|o| o.get("mappings")).and_then(|m| m.as_str()).map(|x| x.to_string()) { if r.below(3) == 0 {
             let gnames: Vec<String> = (0..3).map(|x| format!("g{}_{}", fb.len(), x)).collect();
             fb.push(serde_json::json!([{"names": gnames, "mappings": prev}])); continue; } }
         let mut s = String::new(); let (mut pl, mut pn, mut pc) = (1i64, 0i64, 0i64); let (mut l, mut c) = (1i64, 0i64);
         for e in 0..(1 + r.below(5)) { if e > 0 { s.push(','); c += 1 + r.below(4) as i64; if r.below(3) == 0 { l += 1; } }
-            let n = r.below(nn as u64) as i64; own_vlq(c - pc, &mut s); pc = c; own_vlq(n - pn, &mut s); pn = n; own_vlq(l - pl, &mut s); pl = l; }
+            let n = if nn == 0 { 0 } else { r.below(nn as u64) as i64 }; own_vlq(c - pc, &mut s); pc = c; own_vlq(n - pn, &mut s); pn = n; own_vlq(l - pl, &mut s); pl = l; }
         fb.push(serde_json::json!([{"names": names, "mappings": s}]));
     }
     doc.as_object_mut().unwrap().insert("x_facebook_sources".into(), serde_json::Value::Array(fb));
@@ -1183,6 +1185,8 @@ fn run_roundtrip(r: &mut Rng, n: u64) {
 fn run_api(r: &mut Rng, n: u64, group: &str) {
     for i in 0..n {
         let mut failed: Vec<String> = vec![]; let mut descr = String::new();
+        // announced first: an abort (a panic while panicking, a stack overflow, an allocation failure) or a hang inside the case is then attributable to it
+        outln!("BEGIN\ta{}\tapi\t{}", i, group);
         let res = catch_unwind(AssertUnwindSafe(|| {
             let mut failed: Vec<String> = vec![]; let mut chk = |name: &str, ok: bool| { if !ok { failed.push(name.to_string()); } };
             let descr;
@@ -1193,6 +1197,16 @@ fn run_api(r: &mut Rng, n: u64, group: &str) {
                     chk("get_token_count", sm.get_token_count() as usize == toks.len());
                     chk("get_token(i)=iter[i]", toks.iter().enumerate().all(|(k, t)| sm.get_token(k).map(|x| x.get_raw_token()) == Some(t.get_raw_token())) && sm.get_token(toks.len()).is_none());
                     chk("non-decreasing", toks.windows(2).all(|w| w[0].get_dst() <= w[1].get_dst()));
+                    // the token iterator through the std adaptors, also after it has advanced: the k-th item is the k-th item
+                    { let all: Vec<sourcemap::RawToken> = toks.iter().map(|t| t.get_raw_token()).collect(); let rawof = |o: Option<sourcemap::Token>| o.map(|t| t.get_raw_token());
+                      chk("token iterator adaptors", (0..4usize).all(|k| rawof(sm.tokens().nth(k)) == all.get(k).copied() && sm.tokens().skip(k).take(3).map(|t| t.get_raw_token()).collect::<Vec<_>>() == all.iter().skip(k).take(3).copied().collect::<Vec<_>>())
+                          && sm.tokens().step_by(2).map(|t| t.get_raw_token()).collect::<Vec<_>>() == all.iter().step_by(2).copied().collect::<Vec<_>>()
+                          && { let mut it = sm.tokens(); let a = rawof(it.next()); let b = rawof(it.nth(1)); let c = rawof(it.next()); a == all.first().copied() && b == all.get(2).copied() && c == all.get(3).copied() }
+                          && sm.tokens().count() == all.len() && { let mut it = sm.tokens(); it.next(); it.count() == all.len().saturating_sub(1) } && rawof(sm.tokens().last()) == all.last().copied()); }
+                    chk("looked-up token: pair accessors", toks.iter().all(|t| { let (l, c) = t.get_dst(); [0u32, 1, 9].iter().all(|d| match sm.lookup_token(l, c.saturating_add(*d)) { Some(f) => f.get_src() == (f.get_src_line(), f.get_src_col()) && f.get_dst() == (f.get_dst_line(), f.get_dst_col()) && f.to_tuple().1 == f.get_src_line() && f.to_tuple().2 == f.get_src_col(), None => true }) }));
+                    // a Hermes map answers function names from its own metadata: a source view and a minified name handed to the DecodedMap front end change nothing
+                    { let hdoc = br#"{"version":3,"sources":["a.js"],"names":["orig"],"mappings":"AAAAA,SAAAA","x_facebook_sources":[null]}"#; let svh = sourcemap::SourceView::new("function n(){}".into());
+                      if let Ok(dmh) = sourcemap::decode_slice(hdoc) { chk("hermes front end ignores the source view", (0..14u32).all(|c| dmh.get_original_function_name(0, c, Some("n"), Some(&svh)) == dmh.get_original_function_name(0, c, None, None))); } }
                     // Token's own Eq / Ord: a token equals itself, and the order of tokens begins with the generated position
                     chk("Token Eq/Ord", toks.iter().all(|t| t == t && t.cmp(t) == std::cmp::Ordering::Equal && t.partial_cmp(t) == Some(std::cmp::Ordering::Equal))
                         && toks.windows(2).all(|w| if w[0].get_dst() != w[1].get_dst() { w[0] < w[1] && w[0] != w[1] } else { (w[0] == w[1]) == (w[0].get_raw_token() == w[1].get_raw_token()) }));
@@ -1387,7 +1401,8 @@ fn run_api(r: &mut Rng, n: u64, group: &str) {
                         chk("DecodedMap::from_reader", show(sourcemap::DecodedMap::from_reader(rd())) == show(sourcemap::decode_slice(&bytes)));
                         chk("SourceMap::from_reader", sourcemap::SourceMap::from_reader(rd()).map(|m| sm_full_obs(&m)).map_err(|_| ()) == sourcemap::SourceMap::from_slice(&bytes).map(|m| sm_full_obs(&m)).map_err(|_| ()));
                         chk("SourceMapIndex::from_reader", sourcemap::SourceMapIndex::from_reader(rd()).map(|m| dm_full_obs(&sourcemap::DecodedMap::Index(m))).map_err(|_| ()) == sourcemap::SourceMapIndex::from_slice(&bytes).map(|m| dm_full_obs(&sourcemap::DecodedMap::Index(m))).map_err(|_| ()));
-                        chk("from_slice kinds", match &dm { sourcemap::DecodedMap::Regular(_) => sourcemap::SourceMap::from_slice(&bytes).is_ok() && sourcemap::SourceMapIndex::from_slice(&bytes).is_err(), sourcemap::DecodedMap::Index(_) => sourcemap::SourceMapIndex::from_slice(&bytes).is_ok() && sourcemap::SourceMap::from_slice(&bytes).is_err(), _ => true });
+                        chk("from_slice kinds", match &dm { sourcemap::DecodedMap::Regular(_) => sourcemap::SourceMap::from_slice(&bytes).is_ok() && sourcemap::SourceMapIndex::from_slice(&bytes).is_err(), sourcemap::DecodedMap::Index(_) => sourcemap::SourceMapIndex::from_slice(&bytes).is_ok() && sourcemap::SourceMap::from_slice(&bytes).is_err(),
+                            sourcemap::DecodedMap::Hermes(_) => matches!(sourcemap::SourceMap::from_slice(&bytes), Err(sourcemap::Error::IncompatibleSourceMap)) && matches!(sourcemap::SourceMap::from_reader(rd()), Err(sourcemap::Error::IncompatibleSourceMap)) && sourcemap::SourceMapIndex::from_slice(&bytes).is_err() });
                         chk("SourceMapHermes::from_reader", sourcemap::SourceMapHermes::from_reader(rd()).map(|m| dm_full_obs(&sourcemap::DecodedMap::Hermes(m))).map_err(|_| ()) == sourcemap::SourceMapHermes::from_slice(&bytes).map(|m| dm_full_obs(&sourcemap::DecodedMap::Hermes(m))).map_err(|_| ()));
                         chk("SourceMapHermes::from_slice kinds", sourcemap::SourceMapHermes::from_slice(&bytes).is_ok() == matches!(dm, sourcemap::DecodedMap::Hermes(_)));
                         chk("is_sourcemap", sourcemap::is_sourcemap(rd()) && sourcemap::is_sourcemap_slice(&bytes));
@@ -1421,6 +1436,11 @@ fn run_api(r: &mut Rng, n: u64, group: &str) {
                     let a = sourcemap::SourceView::new(text.clone().into()); let b = sourcemap::SourceView::from_string(text.clone());
                     chk("from_string", a.source() == b.source() && a.source() == text && a.line_count() == b.line_count() && a.lines().collect::<Vec<_>>() == b.lines().collect::<Vec<_>>());
                     chk("lines = get_line", a.lines().enumerate().all(|(k, l)| a.get_line(k as u32) == Some(l)) && a.get_line(a.line_count() as u32).is_none() && a.lines().count() == a.line_count());
+                    // the lines iterator through the std adaptors, also after it has advanced
+                    { let all: Vec<&str> = a.lines().collect(); let n = all.len();
+                      chk("lines iterator adaptors", (0..3usize).all(|k| a.lines().nth(k) == all.get(k).copied() && a.lines().skip(k).count() == n.saturating_sub(k) && a.lines().skip(k).collect::<Vec<_>>() == all.iter().skip(k).copied().collect::<Vec<_>>())
+                          && { let mut it = a.lines(); let first = it.next(); first == all.first().copied() && it.count() == n.saturating_sub(1) } && a.lines().last() == all.last().copied() && a.lines().step_by(2).collect::<Vec<_>>() == all.iter().step_by(2).copied().collect::<Vec<_>>()
+                          && { let mut it = a.lines(); while it.next().is_some() {} it.count() == 0 }); }
                     chk("slice of whole line", (0..a.line_count() as u32).all(|k| { let l = a.get_line(k).unwrap(); let n = l.encode_utf16().count() as u32; a.get_line_slice(k, 0, n) == Some(l) && a.get_line_slice(k, 0, n + 1).is_none() && a.get_line_slice(k, n, 0) == Some("") }));
                 }
                 _ => {          // "ram" (C20): parse_indexed_from_vec, module accessors
